@@ -12,7 +12,7 @@ import sys
 import xml.etree.ElementTree as ET
 
 VERIF = os.path.dirname(os.path.dirname(os.path.abspath(__file__)))
-WT = "/tmp/wt_eval"
+WT = os.environ.get("EVAL_WT", "/tmp/wt_eval")     # one scratch worktree per concurrent evaluation
 PY = "/venv/bin/python"
 
 
@@ -23,7 +23,7 @@ def sh(cmd, cwd=None, env=None, timeout=3600):
 
 
 def passed_set(tree):
-    out = "/tmp/eval_junit.xml"
+    out = "/tmp/eval_junit_%d.xml" % os.getpid()
     env = dict(os.environ, PYTHONPATH=tree)
     sh("%s -m pytest -q -p no:cacheprovider --timeout=900 --continue-on-collection-errors --junitxml=%s >/dev/null 2>&1"
        % (PY, out), cwd=tree, env=env)
@@ -55,9 +55,22 @@ def main():
     try:
         rc1, out1 = sh("%s %s" % (PY, os.path.join(dest, "demo.py")), cwd="/tmp", env=env, timeout=600)
         res["demo_on_patched"] = {"rc": rc1, "tail": out1[-600:]}
-        ps = passed_set(WT)
-        res["baseline_missing_after_patch"] = sorted(set(base) - ps)
-        res["tests_passed_after_patch"] = len(ps)
+        prev = {}
+        if os.environ.get("EVAL_REUSE_TESTS") == "1":
+            # re-evaluation after a harness change: the patch and the repository are the ones the recorded test
+            # result was obtained on, only the checks are run again
+            try:
+                prev = json.load(open(os.path.join(dest, "result.json")))
+            except Exception:
+                prev = {}
+        if "tests_passed_after_patch" in prev and "baseline_missing_after_patch" in prev:
+            res["baseline_missing_after_patch"] = prev["baseline_missing_after_patch"]
+            res["tests_passed_after_patch"] = prev["tests_passed_after_patch"]
+            res["tests_reused_from_earlier_evaluation"] = True
+        else:
+            ps = passed_set(WT)
+            res["baseline_missing_after_patch"] = sorted(set(base) - ps)
+            res["tests_passed_after_patch"] = len(ps)
         checks = {}
         for p in props:
             outdir = os.path.join("/tmp", "eval_out_%s_%s" % (name, p))
